@@ -177,6 +177,14 @@ def work(ctx):
                          "++ ser_bool (view_wf cfg code (map fst kst)) "
                          "| Err _ => [2] end | Err _ => [3] end | Err _ => [4] end)".replace("PAIR", PAIR) % E.g_cd(d),
                          [1, 1, 1], "data_wf, composed K2 conclusion and view_wf of the emitted code on %s" % what, "wf-monitor")
+                # the re-decode theorem: when every block but the first is a jump target, decoding the emitted code gives the
+                # input up to normalization (premise computed here independently, conclusion evaluated inside Coq)
+                targets = set(i.arg.target for b in d.blocks for i in b if type(i.arg).__name__ == "Jump")
+                canon = all(kk in targets for kk in range(1, len(d.blocks)))
+                ctx.count("blocks-cut-at-jump-targets:%s" % canon)
+                ctx.case("(let d := %s in match mapM_cd PAIR d with OK d' => ser_bool (blocks_canonical_b (cd_blocks d')) ++ "
+                         "ser_bool (negb (blocks_canonical_b (cd_blocks d')) || redecode_check cfg d') | Err _ => [4] end)".replace("PAIR", PAIR) % E.g_cd(d),
+                         [1 if canon else 0, 1], "blocks_canonical and re-decode up to normalization on %s" % what, "wf-monitor")
                 # the totality theorem: on data_wf data, enc_ok holds (to_code returned a code object here)
                 ctx.case("(let d := %s in match mapM_cd PAIR d with OK d' => ser_bool (data_wf cfg d') ++ ser_bool (enc_ok cfg d') | Err _ => [4] end)".replace("PAIR", PAIR) % E.g_cd(d),
                          [1, 1], "data_wf and enc_ok (to_code returned) on %s" % what, "wf-monitor")
